@@ -659,9 +659,9 @@ def _full_encoding(expr, data, mat="pandas"):
     if sem[0] == "cat":
         ci = data["cat"][sem[1]]
         vals = [ci["levels"][i] for i in ci["codes"]]
-        # NarwhalsMaterializer + C(...): the encoder re-wraps the narwhals series and loses the declared
-        # categories (unused levels disappear, order = sorted) -- a materializer discrepancy outside C02
-        drop = mat == "narwhals" and expr.startswith("C(")
+        # (before the repair "C(...) keeps the declared categories of a column under the narwhals materializer"
+        # the narwhals path lost unused declared levels here; both materializers now keep the declared order)
+        drop = False
         return "cat", [(f"{expr}[{lv}]", numpy.array([1.0 if v == lv else 0.0 for v in vals])) for lv in _levels(ci, drop)]
     cols = sem[1]
     if list(cols) == [None]:
